@@ -83,11 +83,25 @@ Proof. exact limit_denotes. Qed.
 Theorem C11_denote_interval : forall is_float atoi t z, simple t -> atoi (t_str t) = Some z ->
   eff is_float atoi (B"interval") [t] = ROk ([], UInterval z).
 Proof. exact interval_denotes. Qed.
+Theorem C11_denote_outfile : forall is_float atoi (append : bool) t, simple t ->
+  eff is_float atoi (B"outfile") ((if append then [bare_tok (B"append")] else []) ++ [t]) = ROk ([], UOutfile (Some (t_str t, append))).
+Proof. exact outfile_denotes. Qed.
+Theorem C11_denote_logformat : forall is_float atoi t, simple t ->
+  eff is_float atoi (B"logformat") [t] = ROk ([], ULogformat (t_str t)).
+Proof. exact logformat_denotes. Qed.
+(* the post-checks: no select list is an error; an empty group-by defaults to the first selected field;
+   an order-by that is not one of the selected columns is an error *)
+Theorem C11_finish : forall q s0 rest, q_select q = s0 :: rest ->
+  let q1 := match q_groupby q with [] => set_group q [s_field s0] (q_groupkey q) | _ => q end in
+  finish q = if match q_orderby q1 with [] => true | ob => existsb (fun s => bytes_eqb ob (s_storage s)) (q_select q1) end
+             then ROk q1 else RErr.
+Proof. exact finish_spec. Qed.
+Theorem C11_finish_no_select : forall q, q_select q = [] -> finish q = RErr.
+Proof. exact finish_no_select. Qed.
 Print Assumptions C11_denote_where.
 
 (* What is still NOT proved of the round trip: the quoting variants (double-quoted operands, back-quoted
-   field names), the set clause with its function stacks, outfile / logformat, the post-checks of [finish],
-   and the rejection of malformed families; these are decided by the correspondence check, which renders
+   field names), the set clause with its function stacks and the rejection of malformed families; these are decided by the correspondence check, which renders
    random abstract queries in random clause orders, keyword cases, separator styles and quotings, mutates
    them, and compares every parsed field of mapr.NewQuery with this model and an independent denotation. *)
 Example C11_example :
